@@ -204,9 +204,10 @@ def slice_sites(fn: ast.AST) -> List[Tuple[ast.stmt, ast.Subscript]]:
 
 
 def _reader_paths(ctx, mod: Module, qual: str, w: int, **kw) -> List[Path]:
-    from .codec import wire_type_local
+    from .codec import register_helpers, wire_type_local
 
     fn = mod.func(qual)
+    register_helpers(mod)
     wt = wire_type_local(fn)
     paths = Interp(mod, local_bindings={wt: w}, fresh_calls=["read", "load_varint", "decode_varint"] + list(exact_readers(mod)), **kw).run(fn)
     ctx.count(len(paths))
@@ -310,6 +311,63 @@ def rule_M2(ctx) -> None:
         ctx.proved("M2", "field-number-0", mod.loc(n), f"tested in {q}")
     else:
         ctx.refuted("M2", "field-number-0", "bypassable", mod.loc(n), f"the field-number test in {q} does not lie on every path to the use of the field")
+
+
+def rule_M2b(ctx, rule: str = "M2") -> None:
+    """the tag readers evaluated on concrete tags: every tag with field number 0 is rejected before anything is yielded,
+    and the boundary field numbers 1 and 2**29-1 are accepted (partial evaluation of load_fields / parse_fields with the
+    decoded tag bound to a constant; small helpers are inlined)"""
+    mod = ctx.repo.mod(M_INIT)
+    for q in ("load_fields", "parse_fields"):
+        fn = mod.func(q)
+        inline = {}
+        for c in ast.walk(fn):
+            if isinstance(c, ast.Call) and isinstance(c.func, ast.Name) and c.func.id.startswith("_") and mod.has(c.func.id):
+                h = mod.func(c.func.id)
+                if len(h.body) <= 8 and not any(isinstance(n, (ast.For, ast.While)) for n in ast.walk(h)) and not any("read" in ast.unparse(n) for n in ast.walk(h) if isinstance(n, ast.Call)):
+                    inline[c.func.id] = (mod, h)
+        first = Interp(mod, inline=inline).run(fn)
+        tag = None
+        for p in first:
+            for e in p.events:
+                if e.kind == "call" and dotted(e.data[1]).endswith("varint") and e.loops:
+                    tag = ("item", e.data, 0)
+                    break
+            if tag:
+                break
+        if tag is None:
+            ctx.inconclusive(rule, f"{q}:tag-evaluation", "tag read not recognised", mod.loc(fn))
+            continue
+        bad = None
+        n = 0
+        for number, must_reject in ((0, True), (1, False), (2 ** 29 - 2, False), (2 ** 29 - 1, False)):
+            for w in (0, 1, 2, 5):
+                value = (number << 3) | w
+                paths = Interp(mod, bindings={tag: value}, inline=inline).run(fn)
+                ctx.count(len(paths))
+                n += 1
+                # paths on which the tag was actually read (the clean end-of-input path does not read one)
+                rel = [p for p in paths if any(e.kind == "call" and e.data == tag[1] for e in p.events)]
+                yields = [p for p in rel if any(e.kind == "yield" for e in p.events)]
+                raises_on_number = [p for p in rel if p.outcome == "raise" and not any(e.kind == "yield" for e in p.events)
+                                    and not any(e.kind == "call" and e.depth == 0 and ("read" in dotted(e.data[1]) or dotted(e.data[1]).endswith("varint")) and e.data != tag[1] for e in p.events)]
+                if must_reject and yields:
+                    bad = (number, w, "accepted", yields[0])
+                if not must_reject and raises_on_number and not yields:
+                    bad = (number, w, "rejected", raises_on_number[0])
+        name = f"{q}:tag-evaluation"
+        if bad:
+            number, w, what, p = bad
+            if what == "accepted":
+                ctx.refuted(rule, name, f"number=0,wire={w}", mod.loc(fn),
+                            f"{q} yields a field for the tag {(number << 3) | w} (field number 0, wire type {w}): only the all-zero tag is rejected, other occurrences of the invalid number 0 "
+                            "end up in the unknown fields and are re-emitted", "M().parse(b'\\x02\\x00')")
+            else:
+                ctx.refuted(rule, name, f"number={number},wire={w}", mod.loc(fn),
+                            f"{q} rejects the tag of field number {number} (wire type {w}) although every number in 1 .. 2**29-1 is legal: data written with a schema that uses it "
+                            "cannot be read", "a field numbered 536870911")
+        else:
+            ctx.proved(rule, name, mod.loc(fn), f"{n} (number, wire type) pairs evaluated")
 
 
 def _rejects_zero(t: Sym) -> bool:
@@ -905,15 +963,22 @@ def _advance_sites(g: CFG, load: ast.AST):
     (its 'iter' edge) or a statement calling next(<generator made by load_fields(...)>).
     -> list of (node, edge label to follow after the advance or None for all normal edges)"""
     gens = set()
+
+    def _is_reader(v: ast.AST) -> bool:
+        if isinstance(v, ast.Call) and ast.unparse(v.func) in ("load_fields", "parse_fields", "iter"):
+            return True
+        # load_fields(stream) if <cond> else ()
+        return isinstance(v, ast.IfExp) and (_is_reader(v.body) or _is_reader(v.orelse))
+
     for n in ast.walk(load):
-        if isinstance(n, ast.Assign) and isinstance(n.value, ast.Call) and ast.unparse(n.value.func) in ("load_fields", "parse_fields", "iter"):
+        if isinstance(n, ast.Assign) and _is_reader(n.value):
             for t in n.targets:
                 if isinstance(t, ast.Name):
                     gens.add(t.id)
     out = []
     for nd in g.nodes:
-        if nd.kind == "loop" and isinstance(nd.stmt, ast.For) and isinstance(nd.stmt.iter, ast.Call) \
-                and ast.unparse(nd.stmt.iter.func) in ("load_fields", "parse_fields"):
+        if nd.kind == "loop" and isinstance(nd.stmt, ast.For) and ((isinstance(nd.stmt.iter, ast.Call)
+                and ast.unparse(nd.stmt.iter.func) in ("load_fields", "parse_fields")) or (isinstance(nd.stmt.iter, ast.Name) and nd.stmt.iter.id in gens)):
             out.append((nd, "iter"))
         elif nd.kind == "stmt" and nd.stmt is not None:
             for c in own_nodes(nd.stmt):
@@ -1020,7 +1085,7 @@ def rule_S2(ctx, rule: str = "S2") -> None:
 # S1 - ordering invariant over {read < size, =, >}
 
 
-def rule_S1(ctx) -> None:
+def rule_S1(ctx, rule: str = "S1") -> None:
     mod = ctx.repo.mod(M_INIT)
     load = mod.func("Message.load")
     size = _size_param(load)
@@ -1028,7 +1093,7 @@ def rule_S1(ctx) -> None:
     heads = _load_loop_nodes(g, load)
     acc = _accounting_nodes(g)
     if not heads or not acc:
-        ctx.inconclusive("S1", "load:ordering-invariant", "field loop or accounting statement not found", mod.loc(load))
+        ctx.inconclusive(rule, "load:ordering-invariant", "field loop or accounting statement not found", mod.loc(load))
         return
     counter = acc[0].stmt.target.id  # type: ignore[union-attr]
     dead = _prune_size_none(g, size)
@@ -1147,18 +1212,18 @@ def rule_S1(ctx) -> None:
     adv = set().union(*[s[0] for s in advance_states]) if advance_states else set()
     ext = set().union(*[s[0] for s in exit_states]) if exit_states else set()
     if adv <= {LT}:
-        ctx.proved("S1", "load:advance-only-when-read<size", mod.loc(load), f"field generator advanced in states {sorted(adv)}")
+        ctx.proved(rule, "load:advance-only-when-read<size", mod.loc(load), f"field generator advanced in states {sorted(adv)}")
     else:
         w = "read==size" if EQ in adv else "read>size"
         zero_case = any(z for (rel, z) in advance_states if EQ in rel)
-        ctx.refuted("S1", "load:advance-only-when-read<size", w + (":size==0" if zero_case else ""), mod.loc(load),
+        ctx.refuted(rule, "load:advance-only-when-read<size", w + (":size==0" if zero_case else ""), mod.loc(load),
                     f"with a size given, the next field is read from the stream in state(s) {sorted(adv - {LT})} "
                     + ("(first iteration with size == 0): an empty delimited message consumes the message that follows it" if zero_case else ""),
                     "dump Old() and Old(a=5) delimited into one stream; the first load(s, SIZE_DELIMITED) consumes both")
     if ext <= {EQ}:
-        ctx.proved("S1", "load:return-only-when-read==size", mod.loc(load))
+        ctx.proved(rule, "load:return-only-when-read==size", mod.loc(load))
     else:
-        ctx.refuted("S1", "load:return-only-when-read==size", ",".join(sorted(ext - {EQ})), mod.loc(load),
+        ctx.refuted(rule, "load:return-only-when-read==size", ",".join(sorted(ext - {EQ})), mod.loc(load),
                     f"load can return normally with read {sorted(ext - {EQ})} size: a short or over-long message is not detected")
 
 
